@@ -722,6 +722,9 @@ func execTraceIO(w *World, st *Stats) (*Violation, RunInfo) {
 	sb := &SimBody{data: []byte(op.Args[0]), r: NewRng(uint64(op.N))}
 	req.Body = sb
 	req.ContentLength = int64(len(op.Args[0]))
+	if op.N%3 == 0 {
+		req.ContentLength = -1 // unknown length: the body is still there to be dumped
+	}
 	conn := NewConn()
 	conn.KeepBody = true
 	var pan any
